@@ -1,6 +1,6 @@
 """C01 - Served answers are exactly what the data file declares."""
-import corecase_path  # noqa: F401  (adds lib/props to sys.path)
-from corecase import file_to_coq, file_nontrivial, file_distribution, shrink_file
+
+from props.corecase import file_to_coq, file_nontrivial, file_distribution, shrink_file
 
 ID = "C01"
 HARNESS = "c01"
